@@ -61,6 +61,8 @@ impl RunOut {
 }
 
 struct World<'a> {
+    /// how the dynamic serializer presents values (field order, map-style records, length hints)
+    plan: SerPlan,
     sub: &'a Subject,
     values: &'a [V],
     libvals: Vec<Value>,
@@ -89,7 +91,7 @@ fn run_scenario(sc: &Scenario, w: &World, sink: &mut FaultSink) -> RunOut {
         Scenario::Ser { tbs } => {
             let wr = GenericDatumWriter::builder(&sub.schema).maybe_target_block_size(*tbs).build().expect("writer");
             for v in w.values {
-                if push!(true, wr.write_ser(sink, &DynSer::new(&sub.node, v, &sub.env, SerPlan::default()))) {
+                if push!(true, wr.write_ser(sink, &DynSer::new(&sub.node, v, &sub.env, w.plan))) {
                     break;
                 }
             }
@@ -98,7 +100,7 @@ fn run_scenario(sc: &Scenario, w: &World, sink: &mut FaultSink) -> RunOut {
             let rs = ResolvedSchema::new(&sub.schema).expect("resolved");
             for v in w.values {
                 #[allow(deprecated)]
-                let r = apache_avro::write_avro_datum_ref(&sub.schema, rs.get_names(), &DynSer::new(&sub.node, v, &sub.env, SerPlan::default()), sink);
+                let r = apache_avro::write_avro_datum_ref(&sub.schema, rs.get_names(), &DynSer::new(&sub.node, v, &sub.env, w.plan), sink);
                 if push!(true, r) {
                     break;
                 }
@@ -119,7 +121,7 @@ fn run_scenario(sc: &Scenario, w: &World, sink: &mut FaultSink) -> RunOut {
             for op in ops {
                 let f = match op {
                     COp::Append(i) => push!(true, writer.append_value_ref(&w.libvals[*i])),
-                    COp::AppendSer(i) => push!(true, writer.append_ser(DynSer::new(&sub.node, &w.values[*i], &sub.env, SerPlan::default()))),
+                    COp::AppendSer(i) => push!(true, writer.append_ser(DynSer::new(&sub.node, &w.values[*i], &sub.env, w.plan))),
                     COp::Flush => push!(true, writer.flush()),
                     COp::Extend(is) => push!(true, writer.extend_from_slice(&is.iter().map(|i| w.libvals[*i].clone()).collect::<Vec<_>>())),
                 };
@@ -190,7 +192,14 @@ pub fn case_scenario(c: &mut Choices, log: &mut CaseLog) -> CaseResult {
     let nvals = 1 + c.pick(4);
     let values: Vec<V> = (0..nvals).map(|_| vgen::gen_value_cfg(c, &sub.node, &sub.env, &md, &vcfg)).collect();
     let libvals: Vec<Value> = values.iter().map(|v| to_lib(&sub.node, v, &sub.env)).collect();
-    let world = World { sub: &sub, values: &values, libvals };
+    // the call plan is a function of the generated case (no extra choices are consumed, so
+    // existing replay files keep their meaning); one case in three uses the plain plan
+    let ph = crate::choices::fnv(format!("{}|{}", sub.text, values.iter().map(|v| v.to_js().render()).collect::<Vec<_>>().join(",")).as_bytes());
+    let plan = SerPlan { seed: if ph % 3 == 0 { 0 } else { ph | 1 } };
+    if plan.seed != 0 {
+        log.label("varied_serde_call_plan");
+    }
+    let world = World { plan, sub: &sub, values: &values, libvals };
     let sc = if container {
         let codec = gen_codec(c, true);
         let nops = 1 + c.pick(6);
